@@ -93,7 +93,14 @@ func (m *SubackMessage) Decode(src []byte) (int, error) {
 		return total, err
 	}
 
+	// Nothing behind the end of this packet belongs to it.
+	src = src[:total+int(m.remlen)]
+
 	//this.packetId = binary.BigEndian.Uint16(src[total:])
+	if m.remlen < 2 {
+		return total, fmt.Errorf("suback/Decode: Insufficient remaining length. Expecting at least %d, got %d", 2, m.remlen)
+	}
+
 	m.packetID = src[total : total+2]
 	total += 2
 
